@@ -43,7 +43,7 @@ def run(ck: Check) -> None:
     ck.floor("F", 2)
     ck.floor("A", 3)
     ck.floor("B", 3)
-    ck.floor("C", 2)
+    ck.floor("C", 3)
     ck.floor("D", 3)
     ck.floor("E", 2)
 
@@ -273,6 +273,42 @@ def c(ck: Check) -> None:
         if not any(isinstance(x, ast.Yield) for x in ast.walk(base[1])):
             probs.append("no clause is produced for the constant true")
     ck.ob("C", fm, f.node, not probs, "; ".join(probs) if probs else "false -> no clause, true -> the empty clause", key="base cases")
+    # every consumer up the recursion writes its literal *into* the clause object it receives, so a clause object must
+    # have exactly one owner: it is created for this yield or received from the recursive call, and kept nowhere else
+    probs = []
+    yielded_names = set()
+    for y in own_walk(f.node):
+        if not isinstance(y, ast.Yield):
+            continue
+        v = y.value
+        if isinstance(v, ast.Call) and isinstance(v.func, ast.Name) and v.func.id[:1].isupper():
+            continue      # a fresh object
+        if isinstance(v, ast.Name):
+            yielded_names.add(v.id)
+            defs = fm.cfg.reaching_defs(v.id, fm.cfgn(y))
+            okd = bool(defs)
+            for d_ in defs:
+                if d_.kind == "for" and isinstance(d_.ast.iter, ast.Call) and callee_name(d_.ast.iter) == f.name \
+                        and text(d_.ast.target) == v.id:
+                    continue
+                if d_.kind == "stmt" and isinstance(d_.ast, ast.Assign) and isinstance(d_.ast.value, ast.Call) \
+                        and isinstance(d_.ast.value.func, ast.Name) and d_.ast.value.func.id[:1].isupper():
+                    continue
+                okd = False
+            if okd:
+                continue
+        probs.append(f"line {y.lineno}: `{text(y)[:50]}` hands out a clause object that is neither new nor received from the "
+                     f"recursive call (e.g. replayed from a table): callers write their literal into it, so literals of an earlier "
+                     f"path stay in the clause and the cover loses implicants (transitions go missing)")
+    for n in own_walk(f.node):
+        if isinstance(n, ast.Call) and isinstance(n.func, ast.Attribute) and n.func.attr in ("append", "add", "extend", "insert", "setdefault") \
+                and any(isinstance(x, ast.Name) and x.id in yielded_names for a_ in n.args for x in ast.walk(a_)):
+            probs.append(f"line {n.lineno}: `{text(n)[:50]}` keeps a clause object that is also handed to the caller, who modifies it")
+        if isinstance(n, ast.Assign) and any(isinstance(t, ast.Subscript) for t in n.targets) and \
+                any(isinstance(x, ast.Name) and x.id in yielded_names for x in ast.walk(n.value)):
+            probs.append(f"line {n.lineno}: `{text(n)[:50]}` keeps a clause object that is also handed to the caller, who modifies it")
+    ck.ob("C", fm, f.node, not probs, "; ".join(probs) if probs else
+          "each yielded clause object is new or comes straight from the recursive call, and is retained nowhere", key="clause ownership")
 
 
 def d(ck: Check) -> None:
